@@ -244,4 +244,17 @@ Definition load_tree (o : opts) (root : yv) : M dag :=
            | Err => (Err, e, [])
            | Panic => (Panic, e, [])
            end.
+
+(* The display path of the web server (client.GetStatus: details page, API, before delete and the post-actions):
+   the DAG is loaded without evaluation and an execution graph is built only to validate it
+   (scheduler.NewExecutionGraph -> Node.init on every step).  Node.init gives the node an id and replaces nil
+   Variables / Preconditions by empty lists: it evaluates nothing. *)
+Definition node_init (s : step) : M step := ret s.
+Fixpoint graph_nodes (ss : list step) : M (list step) :=
+  match ss with
+  | [] => ret []
+  | s :: r => x <- node_init s ;; y <- graph_nodes r ;; ret (x :: y)
+  end.
+Definition display (o : opts) (root : yv) : M dag :=
+  g <- load_tree o root ;; u_ <- graph_nodes (g_steps g) ;; ret g.
 End Load.
